@@ -296,6 +296,27 @@ class OptimumAcrossOptions(NativeCase):
                     if crit in bf and bf[crit] is not None and found:
                         self.ob('optimum of the Max-SMT problem = brute-force optimum', min(costs) == bf[crit][0], inputs=dict(block=b, criterion=crit),
                                 info=dict(maxsmt=sorted(costs), brute_force=bf[crit]))
+        # -pop-uninterpreted: the specification names the POPs itself; the problem must exist and be satisfiable as well (finding F49)
+        for b in ("SWAP1 POP", "POP POP", "DUP2 MUL SWAP1 POP", "SWAP1 POP PUSH 0 MSTORE", "POP PUSH 1 ADD"):
+            pipeline.reset_sticky_globals()
+            inp = dict(block=b, options=['-pop-uninterpreted'])
+            try:
+                spec, _ = spec_of_block(corpus.tokens(b), pop=True)
+                base = spec[list(spec)[0]]
+                bo, params, d = build_optimizer(copy.deepcopy(base), ['-pop-uninterpreted'])
+                text = smt2_text(bo)
+                shutil.rmtree(d, ignore_errors=True)
+            except BaseException as e:
+                self.ob('a specification and an encoding are produced under -pop-uninterpreted', False, inputs=inp, info=repr(e))
+                continue
+            self.ob('a specification and an encoding are produced under -pop-uninterpreted', True, inputs=inp)
+            o = z3.Optimize()
+            o.set('timeout', 30000)
+            o.from_string(text.replace("(get-objectives)", "").replace("(get-model)", "").replace("(check-sat)", ""))
+            r = o.check()
+            n += 1
+            self.ob('hard constraints satisfiable (a realizing sequence fits the bound)', r == z3.sat, inputs=inp, info=str(r))
+        pipeline.reset_sticky_globals()
         self.assumptions = ("bounded: %d (specification, criterion, option set) problems with init_progr_len <= 9 (brute force for <= 4), solved with the z3 python API; "
                             "costs of dynamic-gas opcodes taken from the tool's own figure" % n,)
         cleanup_tmp()
